@@ -267,7 +267,7 @@ func newWorld(t *testing.T) *world {
 	w.px = px
 	w.direct = redis.New(mr.Addr(), redis.WithHook(drvHook{w}))
 	w.viaPx = redis.New(px.addr(), redis.WithHook(drvHook{w}))
-	w.raw = red.NewClient(&red.Options{Addr: mr.Addr(), MaxRetries: -1})
+	w.raw = red.NewClient(&red.Options{Addr: mr.Addr(), MaxRetries: -1, DialTimeout: time.Minute, ReadTimeout: time.Minute, WriteTimeout: time.Minute})
 	w.vc = kit.InstallVClock()
 	return w
 }
